@@ -324,7 +324,7 @@ class XGen:
                     pr.append(X("w:vMerge", {"w:val": "restart"}))
                 elif kind == "continue":
                     pr.append(X("w:vMerge", {"w:val": "continue"} if self.maybe(0.5) else {}))
-                content = [self.paragraph(depth + 1)] if kind == "continue" else self.blocks(depth + 1, r.choice([1, 1, 2]))
+                content = [X("w:p")] if kind == "continue" else self.blocks(depth + 1, r.choice([1, 1, 2]))
                 tcs.append(X("w:tc", {}, ([X("w:tcPr", {}, pr)] if pr or self.maybe(0.5) else []) + content))
             trpr = [X("w:trPr", {}, [X("w:tblHeader")])] if i < nhead else ([X("w:trPr")] if self.maybe(0.2) else [])
             trs.append(X("w:tr", {}, trpr + tcs))
@@ -452,3 +452,30 @@ def xml_from_json(j):
     if "t" in j:
         return XT(j["t"])
     return X(j["n"], dict(j["a"]), [xml_from_json(c) for c in j["c"]])
+
+
+def pkg_json(pkg):
+    opt = lambda l: None if l is None else [xml_json(x) for x in l]
+    return {"body": [xml_json(x) for x in pkg.body], "styles": opt(pkg.styles), "numbering": opt(pkg.numbering),
+            "rels": [list(r) for r in pkg.rels], "content_types": pkg.content_types, "footnotes": opt(pkg.footnotes),
+            "endnotes": opt(pkg.endnotes), "comments": opt(pkg.comments),
+            "media": {k: list(v) for k, v in pkg.media.items()},
+            "linked": {k: [v[0], list(v[1]) if v[0] == "data" else v[1]] for k, v in pkg.linked.items()},
+            "embedded_style_map": pkg.embedded_style_map, "meta": {k: v for k, v in pkg.meta.items() if k != "extra_entries"}}
+
+
+def pkg_from_json(j):
+    opt = lambda l: None if l is None else [xml_from_json(x) for x in l]
+    p = Package()
+    p.body = [xml_from_json(x) for x in j["body"]]
+    p.styles, p.numbering = opt(j.get("styles")), opt(j.get("numbering"))
+    p.rels = [tuple(r) for r in j.get("rels", [])]
+    if j.get("content_types"):
+        p.content_types = {"defaults": [tuple(x) for x in j["content_types"]["defaults"]],
+                           "overrides": [tuple(x) for x in j["content_types"]["overrides"]]}
+    p.footnotes, p.endnotes, p.comments = opt(j.get("footnotes")), opt(j.get("endnotes")), opt(j.get("comments"))
+    p.media = {k: bytes(v) for k, v in j.get("media", {}).items()}
+    p.linked = {k: (v[0], bytes(v[1]) if v[0] == "data" else v[1]) for k, v in j.get("linked", {}).items()}
+    p.embedded_style_map = j.get("embedded_style_map")
+    p.meta = dict(j.get("meta", {}))
+    return p
